@@ -21,6 +21,8 @@ import (
 //
 //	variant 0: the final block of an upload nobody started (block 0 lost, transfer expired, ...): the block-wise
 //	           layer answers 4.08 on its own - class 4
+//	variant 2: a download in blocks: the first request carries no option and gets block 0; the request for block 1
+//	           carries No-Response - the block is a 2.05 that answers it
 //	variant 1: a two-block upload, No-Response on both blocks; the handler answers the assembled request with
 //	           2.04 / 4.00 / 5.00 through SetResponse
 //
@@ -30,7 +32,7 @@ func c20BlockwiseRun(e *Env) {
 	t := e.Tape
 	kind := t.Choose(4) // 0 UDP CON, 1 UDP NON, 2 DTLS CON, 3 TCP
 	v := uint32(t.Choose(256))
-	variant := t.Choose(2)
+	variant := t.Choose(3)
 	hcode := []byte{0x44, 0x80, 0xa0}[t.Choose(3)]
 	tr := []string{TrUDP, TrUDP, TrDTLS, TrTCP}[kind]
 	reqType := TCON
@@ -42,10 +44,21 @@ func c20BlockwiseRun(e *Env) {
 	}
 	var handlerRuns, refusals int
 	var gotBody []byte
-	handle := func(body io.ReadSeeker, set func(c codes.Code) error) {
+	big := bytes.Repeat([]byte("0123456789"), 4)
+	handle := func(body io.ReadSeeker, set func(c codes.Code) error, setBig func() error) {
 		var b []byte
 		if body != nil {
 			b, _ = io.ReadAll(body)
+		}
+		if variant == 2 {
+			err := setBig()
+			e.mu.Lock()
+			handlerRuns++
+			if err != nil {
+				refusals++
+			}
+			e.mu.Unlock()
+			return
 		}
 		err := set(codes.Code(hcode))
 		e.mu.Lock()
@@ -63,13 +76,15 @@ func c20BlockwiseRun(e *Env) {
 		cfg := SimUDPConfig(1000)
 		cfg.BlockwiseEnable = true
 		cfg.Handler = func(rw *responsewriter.ResponseWriter[*udpClient.Conn], r *pool.Message) {
-			handle(r.Body(), func(c codes.Code) error { return rw.SetResponse(c, message.TextPlain, bytes.NewReader([]byte("done"))) })
+			handle(r.Body(), func(c codes.Code) error { return rw.SetResponse(c, message.TextPlain, bytes.NewReader([]byte("done"))) },
+				func() error { return rw.SetResponse(codes.Content, message.TextPlain, bytes.NewReader(big)) })
 		}
 		w = NewCWorld(e, CWorldCfg{Transport: tr, UDP: cfg})
 	} else {
 		r := mux.NewRouter()
 		r.DefaultHandle(mux.HandlerFunc(func(rw mux.ResponseWriter, r *mux.Message) {
-			handle(r.Body(), func(c codes.Code) error { return rw.SetResponse(c, message.TextPlain, bytes.NewReader([]byte("done"))) })
+			handle(r.Body(), func(c codes.Code) error { return rw.SetResponse(c, message.TextPlain, bytes.NewReader([]byte("done"))) },
+				func() error { return rw.SetResponse(codes.Content, message.TextPlain, bytes.NewReader(big)) })
 		}))
 		w = NewCWorld(e, CWorldCfg{Transport: tr, TCPOpts: []tcp.Option{options.WithMux(r), options.WithCloseSocket(), options.WithBlockwise(true, 0, 0)}})
 	}
@@ -120,7 +135,25 @@ func c20BlockwiseRun(e *Env) {
 	var lastMID uint16
 	var class byte
 	var what string
-	if variant == 0 {
+	if variant == 2 {
+		lastMID, class, what = 7778, 2, "block 1 of the response (2.05), served by the block-wise layer"
+		get := func(mid uint16, opts ...WOpt) *WMsg {
+			return &WMsg{Type: reqType, Code: 1, MID: mid, Token: token, Opts: append([]WOpt{{Num: OptURIPath, Val: []byte("big")}}, opts...)}
+		}
+		send(get(7777, UintOpt(OptBlock2, BlockOpt(0, false, 0))), "get (block 0, no option)")
+		n0 := 0
+		for _, m := range wire {
+			if bytes.Equal(m.Token, token) && m.Code == 0x45 {
+				n0++
+			}
+		}
+		if n0 != 1 {
+			e.Violate("C20.R3", "response-count:class2:blockwise-download-first-block", "the request without No-Response got %d responses: %v", n0, wire)
+			return
+		}
+		wire = nil
+		send(get(7778, UintOpt(OptBlock2, BlockOpt(1, false, 0)), UintOpt(OptNoResponse, v)), "get (block 1, No-Response)")
+	} else if variant == 0 {
 		lastMID, class, what = 7777, 4, "the block-wise layer's answer to a final block without a transfer"
 		send(block(7777, 1, false, []byte("tail!")), "lone-final-block")
 	} else {
@@ -157,7 +190,7 @@ func c20BlockwiseRun(e *Env) {
 			}
 		}
 	}
-	tag := []string{"incomplete", "upload"}[variant]
+	tag := []string{"incomplete", "upload", "download"}[variant]
 	if suppressed {
 		e.Probe("blockwise." + tag + ".suppressed")
 		if responses != 0 {
@@ -167,7 +200,7 @@ func c20BlockwiseRun(e *Env) {
 			e.Violate("C20.R2", "confirmable-request-not-acknowledged:blockwise-"+tag, "the confirmable block (MID %d) got %d bare acknowledgements: %v", lastMID, bareAcks, wire)
 		}
 	} else {
-		e.Probe("blockwise." + tag + map[int]string{0: ".sent", 1: ".answered"}[variant])
+		e.Probe("blockwise." + tag + map[int]string{0: ".sent", 1: ".answered", 2: ".answered"}[variant])
 		if responses != 1 {
 			e.Violate("C20.R3", fmt.Sprintf("response-count:class%d:blockwise-%s", class, tag), "No-Response=%d does not suppress class %d.xx: %s appeared %d times on the wire: %v", v, class, what, responses, wire)
 		}
